@@ -613,3 +613,12 @@ def h14(ctx):
 
 
 RULES.append(h14)
+
+
+@rule("H15", doc="an e-node is canonicalised child by child: find_enode's per-child step is find_applied_id of that child's own invocation on every path (C13.T17) — a memo keyed by class id hands one child the arguments of another, a parent class loses a slot its terms depend on (an unsound redundancy)")
+def h15_t17(ctx):
+    from . import c13
+    c13.t17(ctx)
+
+
+RULES.append(h15_t17)
